@@ -1,7 +1,9 @@
 #!/bin/sh
 # Build the framework from files on disk only (offline). Run once after a fresh restore.
-set -e
+# Regenerates the model from /repo, builds the driver and every property module (also warms the Mathlib oleans).
 cd "$(dirname "$0")"
-python3 tools/translate.py /repo/src/pystog lean/PystogVerif/Gen || true
+python3 tools/translate.py /repo/src/pystog lean/PystogVerif/Gen
 cd lean
-lake build PystogVerif drv 2>&1 | tail -5 || true
+lake build drv 2>&1 | tail -3
+lake build PystogVerif 2>&1 | tail -15
+exit 0
